@@ -167,6 +167,15 @@ bad = []
 if sum(got.values()) != 1: bad.append("fractions sum to %%s" %% sum(got.values()))
 for k in coeffs:
     if got[k] != coeffs[k] * masses[k] / tot or not got[k] > 0: bad.append("fraction of %%s is %%s expected %%s" %% (k, got[k], coeffs[k] * masses[k] / tot))
+r3 = mass_fractions(dict(coeffs), substance_factory=lambda k: Substance(k, composition={1: 1}, data={"mass": masses[k]}))
+for k in coeffs:
+    if r3[k] != coeffs[k] * masses[k] / tot: bad.append("with a substance factory: fraction of %%s is %%s expected %%s" %% (k, r3[k], coeffs[k] * masses[k] / tot))
+import numpy as np
+arrc = {k: np.array([coeffs[k], 2 * coeffs[k] + 1], dtype=object) for k in coeffs}
+r4 = mass_fractions(dict(arrc), substances=subs)
+tot2 = sum((2 * coeffs[k] + 1) * masses[k] for k in coeffs)
+for k in coeffs:
+    if r4[k][0] != coeffs[k] * masses[k] / tot or r4[k][1] != (2 * coeffs[k] + 1) * masses[k] / tot2: bad.append("array-valued coefficients: fraction of %%s is %%s" %% (k, list(r4[k])))
 r2 = mass_fractions({"H2O": float(coeffs["S0"]), "Fe+3": float(coeffs["S1"])})
 mw, mf = Substance.from_formula("H2O").mass, Substance.from_formula("Fe+3").mass
 e2 = float(coeffs["S0"]) * mw / (float(coeffs["S0"]) * mw + float(coeffs["S1"]) * mf)
@@ -192,20 +201,28 @@ def task_fractions(nsub):
         # formula-defined substances (real parser + real table), symbolic coefficients
         f = {"H2O": coeffs[keys[0]], "Fe+3": coeffs[keys[1]]}
         r2 = mass_fractions(dict(f))
-        return r1, r2
+        # optional arguments / input forms: a caller-supplied factory decides the masses; coefficients given as arrays (a batch of mixtures)
+        r3 = mass_fractions(dict(coeffs), substance_factory=lambda k: Substance(k, composition={1: 1}, data={"mass": masses[k]}))
+        import numpy as np
+        arrc = {k: np.array([coeffs[k], 2 * coeffs[k] + 1], dtype=object) for k in keys}
+        r4 = mass_fractions(dict(arrc), substances=subs)
+        kept = all(arrc[k][0] is coeffs[k] for k in keys)
+        return r1, r2, r3, r4, kept
 
     def goal(p, twin=False):
         if p.kind == "exc":
             return False
-        r1, r2 = p.value
-        if set(r1) != set(keys) or set(r2) != {"H2O", "Fe+3"}:
+        r1, r2, r3, r4, kept = p.value
+        if set(r1) != set(keys) or set(r2) != {"H2O", "Fe+3"} or set(r3) != set(keys) or set(r4) != set(keys) or not kept:
             return False
         tot = sum(coeffs[k] * masses[k] for k in keys)
         if twin:
             return eq_term(r1[keys[0]] * tot, coeffs[keys[0]] * masses[keys[0]] * 2)
         conds = [eq_term(sum(r1.values()), 1), eq_term(sum(r2.values()), 1)]
+        tot2 = sum((2 * coeffs[k] + 1) * masses[k] for k in keys)
         for k in keys:
-            conds += [eq_term(r1[k] * tot, coeffs[k] * masses[k]), lift(r1[k]) > 0]
+            conds += [eq_term(r1[k] * tot, coeffs[k] * masses[k]), lift(r1[k]) > 0, eq_term(r3[k] * tot, coeffs[k] * masses[k]),
+                      eq_term(r4[k][0] * tot, coeffs[k] * masses[k]), eq_term(r4[k][1] * tot2, (2 * coeffs[k] + 1) * masses[k])]
         conds += [lift(r2["H2O"]) > 0, lift(r2["Fe+3"]) > 0]
         return z3.And(*conds)
 
